@@ -1550,3 +1550,10 @@ def m_sum(eng, args, kwargs, st, node):
             from . import specs_support
             return [(specs_support.call_spec_by_name(eng, 'int_sum', [VSeq(seq, elem)], st, node), st)]
     raise Undecided('sum(%r)' % (args,), node)
+
+
+# ----------------------------------------------------------------- ordered mapping of collected definitions (C07 glue)
+@method('CallDefs.items')
+def calldefs_items(eng, args, kwargs, st, node):
+    o = st.heap[args[0].loc]
+    return [(o.fields['entries'], st)]
